@@ -15,8 +15,8 @@ Inductive fsop := FCreateExcl | FOpen | FRename (dst : path) | FRemove | FReadFi
 Inductive fres := FOk | FExist | FNoEnt | FOtherErr.
 
 Inductive apiop :=
-| AOpen | AAdd (tx : nat) (auto : bool) | AAddMulti (tx : nat) (auto : bool) | AAddEmpty | AAddBad
-| ACompactAll | AExpire | AClose | ARead | AClean.
+| AOpen | AAdd (tx : nat) (auto : bool) | AAddMulti (tx : nat) (same : bool) | AAddEmpty | AAddBad
+| ACompactAll | ACompact (first last : nat) | AExpire | AClose | ARead | AClean.
 
 Inductive apires :=
 | ROk | RLockFailure | RRejected | RErr | RNoStack | RPanic
@@ -142,7 +142,7 @@ Definition ret_allowed (op : apiop) (r : apires) : bool :=
   | (AAdd _ _ | AAddMulti _ _), (ROk | RLockFailure) => true
   | AAddEmpty, (ROk | RLockFailure) => true
   | AAddBad, (RRejected | RLockFailure) => true
-  | (ACompactAll | AExpire), ROk => true
+  | (ACompactAll | ACompact _ _ | AExpire), ROk => true
   | AClose, ROk => true
   | AClean, (ROk | RLockFailure) => true
   | ARead, RView _ _ => true
